@@ -8,6 +8,9 @@
 2. spec -> code: the model's (host, list) pairs and the debugger model's labelled transitions are exported
    from TLC and replayed on host_is_trusted / get_host / Request.host and on a real DebuggedApplication
    (spy frame, frozen clock, cookies minted with hash_pin); the recorded outcomes are judged by TLC.
+   Growth: spec/hosttrust/ProxyFix.tla (decision table of the X-Forwarded-* selection + the host a Request is
+   judged by incl. SERVER_NAME/SERVER_PORT fallback), model-checked for its laws (MCProxyFix), rows exported and
+   replayed on the real middleware, composed with HostTrust!Verdicts (clauses Proxy...).
 3. code -> spec: label-grammar neighbours of every trusted entry, a code point sweep, seeded random request
    histories, every PIN-attempt sequence over {right, wrong, stale-cookie} up to a length (and beyond the
    lock-out threshold), a very long history (counter wrap) -- all judged by HostTrustTrace.tla.
@@ -262,7 +265,7 @@ def judge_proxy(ctx: Ctx, cases, kind="pfix"):
             ctx.sample({"proxy_fix": c["cfg"], "headers": {k: v for k, v in c["hd"].items() if v is not None}, "environ": c["env"],
                         "trusted": c["trusted"], "host_after": _txt(ln["out"]["host"]), "Request.host": [ln["r"]["kind"], _txt(ln["r"]["v"]), ln["r"]["exc"]]})
     ctx.count(len(lines))
-    for r in ctx.judge(AREA, PJUDGE, lines, batch=2500):
+    for r in ctx.judge(AREA, PJUDGE, lines, batch=1000):
         c = dict(cases[r["t"]])
         ctx.violation(f"{r['clause']}:proxy_fix", r["clause"], c, kind=kind)
     return seen
@@ -314,12 +317,18 @@ def run(ctx: Ctx):
                 "malformed labels), code point sweep, seeded random; requests: TLC-exported transitions of the gate model, host "
                 "classes x endpoints, product of factors, seeded random histories, PIN-attempt sequences. non-trivial = distinct "
                 "(host, list) whose host text contains a listed name, and distinct (config, command, secret, cookie, frame, pin, "
-                "host, counter<=12) debugger requests other than none/resource")
+                "host, counter<=12) debugger requests other than none/resource; growth: one request through the real ProxyFix "
+                "(TLC-exported table rows, seeded random header lists with client-prepended twins) or with the SERVER_NAME/"
+                "SERVER_PORT fallback, then Request(environ, trusted_hosts).host/host_url/root_url/access_route; non-trivial = "
+                "distinct cases whose environ was rewritten or that have no Host header")
     ctx.assumptions += [
         "IDNA ToASCII of a non-ASCII label is an uninterpreted function: its recorded value (Python's idna codec) is taken as given",
         "letter-case variants, IDNA-equivalent spellings, a trailing dot, non-numeric port text, lists with a malformed entry: either verdict is accepted",
         "the debugger is driven in-process as a WSGI callable; time.time/time.sleep inside werkzeug.debug are replaced by a frozen clock; "
         "a 'process restart' is a new DebuggedApplication",
+        "ProxyFix: header lists without quoted strings in the judged case (quotes/backslashes only in the client-prepended twin values, "
+        "where a changed outcome is reported as drift); SERVER_PORT texts are canonical numbers or non-numbers; which value lands in which "
+        "environ key, URL texts and access_route are compared with the documented table as drift only",
         "bounded models: hosts of <= 2..3 labels from 7 representative labels x 4 port forms + 6 literal forms, lists of <= 2 of 12 entries; "
         "debugger: the product of 6 commands x 3 secrets x 3 host verdicts x 5 cookies x 3 frames x 2 PINs from every counter value 0..255",
     ]
